@@ -24,5 +24,8 @@ Proof. reflexivity. Qed.
 
 Print Assumptions SRC_inventory_%s.
 """ % (name, name, name, name, lit, name)
+    if name == "cargo":
+        o = o.replace("pinned inventory of indextree/src/cargo.rs: every trait impl with its methods, every derive list,\n   every static / const / macro-generated item (macro_rules! arms are read with their metavariables substituted).",
+                      "the three cargo manifests (workspace, indextree, indextree-macros) line by line without the descriptive\n   metadata: features and what they switch on, dependencies, profiles (overflow checks, panic strategy), lints.")
     open(os.path.join(out, "INV%s.v" % name), "w").write(o)
     print("wrote INV%s.v" % name)
